@@ -207,7 +207,7 @@ func (c *checker) judge(rows []row, label string) map[int]string {
 	if len(rows) < chunks {
 		chunks = len(rows)
 	}
-	t := mbt.MustTLC(mbt.TLCOpts{Spec: "LiteralsNameTrace", Cfg: "LiteralsNameTrace.cfg", Workers: 8, Continue: true,
+	t := mbt.MustTLC(mbt.TLCOpts{Spec: "LiteralsNameTrace", Cfg: "LiteralsNameTrace.cfg", Workers: 4, Continue: true,
 		Consts: map[string]string{"Chunks": strconv.Itoa(chunks)},
 		Data:   map[string][]byte{"c11_rec.ndjson": mbt.NDJSONBytes(rows)}, Timeout: 20 * time.Minute})
 	defer t.Cleanup()
@@ -970,6 +970,10 @@ var extras = []string{
 	"%", "%%", "%s", "%d", "%v", "%!", "a%", "100%", "%!s(MISSING)", "%%%", "%5C", "a%20b", "%\\",
 	"0", "1", "42", "007", "00", "1a", "2b", "1_", "9.5", "1e5", "0x1F", "-1", "-", "a.b", "struct.foo", "a-b$c_d",
 	"4294967295", "4294967296", "9223372036854775807", "9223372036854775808", "18446744073709551615", "18446744073709551616", "99999999999999999999",
+	// names that look like integer, hexadecimal and floating-point literals or like type / constant keywords
+	"u0x1F", "s0x1F", "0xK3FFF8000000000000000", "0xH3C00", "0xL00", "0xM00", "0xR00", "1.0e+5", "-1.5", "+1.5e-3", "1.", ".5", "1e", "inf", "nan",
+	"i0", "i8388608", "iN", "x86_fp80", "x86_mmx", "addrspace", "vscale", "splat", "cc", "ccc", "cc10", "blockaddress", "dso_local_equivalent", "no_cfi",
+	"getelementptr", "inbounds", "entry", "unnamed_addr", "section", "align", "!dbg", "dbg", "...", "*", "<4 x i32>", "[1 x i8]",
 	"世界", "\xE4\xB8", "a b", " a", "a ", "\t", "\r", "a\nb", "ret", "i32", "c", "x", "true", "null", "%a", "@a", "!a", "$a", "a:", "a=b", "a,b", "(a)", "{a}", "#0", ";a", "a;b",
 	strings.Repeat("a", 300), strings.Repeat("\\", 7), strings.Repeat("\"", 3),
 }
@@ -1034,7 +1038,7 @@ func Run(tier, replay string) {
 		consts["MaxLen"] = "3"
 		consts["PairLen"] = "2"
 	}
-	t = mbt.MustTLC(mbt.TLCOpts{Spec: "LiteralsName", Cfg: "LiteralsName.cfg", Consts: consts, Workers: 8, Timeout: 20 * time.Minute})
+	t = mbt.MustTLC(mbt.TLCOpts{Spec: "LiteralsName", Cfg: "LiteralsName.cfg", Consts: consts, Workers: 4, Timeout: 20 * time.Minute})
 	if len(t.Violated) > 0 {
 		mbt.Infra("reference coder of Literals.tla violates %v: specification error\n%s", t.Violated, tail(t.Output))
 	}
@@ -1049,6 +1053,44 @@ func Run(tier, replay string) {
 	byKind := map[string][]gcase{}
 	for _, v := range vectors {
 		byKind[v.Kind] = append(byKind[v.Kind], gcase{b: str(v.Bytes), tok: str(v.Tok), ref: str(v.Ref), tag: v.Tag})
+	}
+
+	// every byte value alone and in first / middle / last position (LiteralsName!EveryBytePositions):
+	// the reference coder is checked on them, the strings go to the encoders of internal/enc and to the
+	// positions with an encoder of their own; thorough: the spellings are fed to the parser as well
+	t = mbt.MustTLC(mbt.TLCOpts{Spec: "LiteralsName", Cfg: "LiteralsNameBytes.cfg", Workers: 4, Timeout: 10 * time.Minute})
+	if len(t.Violated) > 0 {
+		mbt.Infra("reference coder of Literals.tla violates %v on LiteralsNameBytes.cfg: specification error\n%s", t.Violated, tail(t.Output))
+	}
+	rep.AddTLC(t)
+	byteVectors := readVectors(t.Output)
+	t.Cleanup()
+	everyByte := map[string][]string{} // kind -> byte strings
+	everyByteCases := map[string][]gcase{}
+	var everyByteAll []string
+	{
+		seenK := map[string]bool{}
+		seenB := map[string]bool{}
+		for _, v := range byteVectors {
+			b := str(v.Bytes)
+			everyByteCases[v.Kind] = append(everyByteCases[v.Kind], gcase{b: b, tok: str(v.Tok), ref: str(v.Ref), tag: v.Tag})
+			if !seenK[v.Kind+"\x00"+b] {
+				seenK[v.Kind+"\x00"+b] = true
+				everyByte[v.Kind] = append(everyByte[v.Kind], b)
+			}
+			if !seenB[b] {
+				seenB[b] = true
+				everyByteAll = append(everyByteAll, b)
+			}
+		}
+	}
+	if len(everyByteAll) < 1000 {
+		mbt.Infra("LiteralsNameBytes.cfg emitted %d byte strings", len(everyByteAll))
+	}
+	rep.Extra["every_byte_strings"] = len(everyByteAll)
+	ownEncoder := map[string]bool{"global": true, "label": true, "comdat": true, "mdname": true, "section": true, "chararray": true}
+	if tier == "thorough" {
+		ownEncoder["param"], ownEncoder["type"], ownEncoder["inst"], ownEncoder["mdstring"] = true, true, true, true
 	}
 
 	// byte strings for the code -> spec direction
@@ -1103,18 +1145,30 @@ func Run(tier, replay string) {
 			medium = append(medium, b)
 		}
 	}
+	withBytes := func(p *position, l []string) []string {
+		if !ownEncoder[p.name] {
+			return l
+		}
+		out := append([]string{}, l...)
+		for _, b := range everyByte[p.kind] {
+			if !seen[b] {
+				out = append(out, b)
+			}
+		}
+		return out
+	}
 	c.codeToSpec(ps, func(p *position) []string {
 		if tier == "quick" {
 			if p.single || p.light {
 				return short
 			}
 			if p.name == "global" || p.name == "param" || p.name == "label" {
-				return long
+				return withBytes(p, long)
 			}
 		} else if p.light {
 			return medium
 		}
-		return uniq
+		return withBytes(p, uniq)
 	})
 	rep.Extra["wall_s_code_to_spec"] = time.Since(t0).Seconds()
 	t0 = time.Now()
@@ -1136,12 +1190,28 @@ func Run(tier, replay string) {
 				}
 			}
 		}
+		if tier == "thorough" && ownEncoder[p.name] {
+			for _, g := range everyByteCases[p.kind] {
+				if !seen[g.b] {
+					cases = append(cases, g)
+				}
+			}
+		}
 		c.specToCode(p, cases)
 		rep.Extra["wall_s_spec_to_code_"+p.name] = time.Since(t1).Seconds()
 	}
 	rep.Extra["wall_s_spec_to_code"] = time.Since(t0).Seconds()
-	c.encoders(append([]string{""}, uniq...))
+	encStrings := append([]string{""}, uniq...)
+	for _, b := range everyByteAll {
+		if !seen[b] {
+			encStrings = append(encStrings, b)
+		}
+	}
+	c.encoders(encStrings)
 	c.idsStayIDs()
+	t0 = time.Now()
+	c.histories(nil)
+	rep.Extra["wall_s_histories"] = time.Since(t0).Seconds()
 
 	total := rep.Evaluations
 	rep.Extra["positions"] = len(positions())
@@ -1187,6 +1257,7 @@ func runReplay(c *checker, path string) {
 	var ps []*position
 	var encs []string
 	ids := false
+	var hists []histVec
 	for _, f := range one.Failures {
 		hx, _ := f.Case["bytes"].(string)
 		raw, _ := hex.DecodeString(hx)
@@ -1204,6 +1275,10 @@ func runReplay(c *checker, path string) {
 			want[p] = append(want[p], b)
 		case "enc":
 			encs = append(encs, b)
+		case "hist":
+			if v, ok := histFromCase(f.Case); ok {
+				hists = append(hists, v)
+			}
 		case "ids":
 			ids = true
 		}
@@ -1234,5 +1309,9 @@ func runReplay(c *checker, path string) {
 	}
 	if ids {
 		c.idsStayIDs()
+	}
+	if len(hists) > 0 {
+		// the reference tokens of the spec -> code half are not part of a case: the code -> spec half is replayed
+		c.histories(hists)
 	}
 }
